@@ -754,7 +754,14 @@ fn abort_error(tcb: &Tcb) -> Option<Error> {
 
 fn abort_with(k: &mut Kernel, fd: Fd, reason: AbortReason) {
     let st = k.lookup_mut(fd).unwrap();
+    // A child still in `SynReceived` has not reached a listener's ready
+    // queue and no application handle refers to it, so nobody could ever
+    // close it: `reap_closed` waits for `fd_closed`, which only a handle
+    // can set. Reclaim it here, or its 4-tuple entry swallows later SYNs
+    // from the same remote endpoint.
+    let mut orphan = false;
     if let Some(tcb) = st.tcb.as_mut() {
+        orphan = tcb.state == TcpState::SynReceived;
         tcb.state = TcpState::Closed;
         match reason {
             AbortReason::Reset => tcb.reset = true,
@@ -768,6 +775,9 @@ fn abort_with(k: &mut Kernel, fd: Fd, reason: AbortReason) {
     }
     st.wake_read();
     st.wake_write();
+    if orphan {
+        k.sockets.remove(fd);
+    }
 }
 
 /// Find a listening socket bound to `local` (or the matching wildcard).
